@@ -15,8 +15,8 @@
    model of typing the model of the check uses (validated against CPython by the stream `typing` and by the Python-side
    oracle py_consistent on every run).                                                                              *)
 From Coq Require Import List ZArith Bool String.
-From PV Require Import Base.Exn Model.DocstringTyping Model.Docstring Spec.DocstringSpec Gen.Docstring
-  Proofs.DocstringTy Proofs.DocstringEvalLemmas Proofs.DocstringRef Proofs.DocstringMain Proofs.DocstringWf.
+From PV Require Import Base.Exn Model.DocstringTyping Model.Docstring Model.DocstringClass Spec.DocstringSpec Gen.Docstring
+  Proofs.DocstringTy Proofs.DocstringEvalLemmas Proofs.DocstringRef Proofs.DocstringMain Proofs.DocstringWf Proofs.DocstringClass.
 Import ListNotations.
 Open Scope string_scope.
 Open Scope list_scope.
@@ -191,6 +191,81 @@ Proof.
   intros l. split; [apply decorate_all_Ok|]. intros l1 c l2 e E H1 H2. subst l. now apply decorate_all_first.
 Qed.
 Print Assumptions C19_class_all_methods.
+
+(* ---- subclasses: an override is judged by ITS OWN docstring ------------------------------------------------------------------ *)
+(* Model/DocstringClass.v: a class = its own methods (each with the __doc__ of that very function) + at most one base class.
+   Decorator form (`@...` over the class statement / over the def in the class body) and call form (the decorator applied
+   later, once the class object exists: pedantic_class_require_docstring(K), pedantic_require_docstring(K.m), pedantic(K.m))
+   reach the same function objects, hence one statement covers both.  What a base class documents for a method of the same
+   name (`inherited_doc`, the text inspect.getdoc / help() show) is no input of the check: the statements hold for EVERY
+   `parent`.                                                                                                               *)
+
+(* decorating the attribute K.n that K defines itself = decorating that function with its own annotations and docstring *)
+Theorem C19_attribute_checked_with_own_docstring : forall own parent n m req,
+  find_meth n own = Some m ->
+  decorate_attr docstring_prog req (Klass own parent) n = decorate docstring_prog (fc req (m_ann m) (m_doc m)).
+Proof. intros. now apply decorate_attr_own. Qed.
+Print Assumptions C19_attribute_checked_with_own_docstring.
+
+(* "when required, a missing docstring raises": an override without a docstring of its own, whatever its bases document *)
+Theorem C19_undocumented_override_rejected : forall own parent n m,
+  find_meth n own = Some m -> d_raw (m_doc m) <> RawText ->
+  decorate_attr docstring_prog true (Klass own parent) n = Raise PDocstringC.
+Proof.
+  intros own parent n m H D. rewrite (C19_attribute_checked_with_own_docstring _ _ _ _ _ H).
+  now apply C19_required_missing_doc.
+Qed.
+Print Assumptions C19_undocumented_override_rejected.
+
+(* ... and the class decorator stops at the first own method without a docstring, whatever the bases document *)
+Theorem C19_class_with_undocumented_method_rejected : forall l1 m l2 parent,
+  d_raw (m_doc m) <> RawText ->
+  (forall x, In x l1 -> decorate docstring_prog (fc true (m_ann x) (m_doc x)) = Ok tt) ->
+  decorate_class docstring_prog (Klass (l1 ++ m :: l2) parent) = Raise PDocstringC.
+Proof.
+  intros l1 m l2 parent D H. apply decorate_class_first; [exact H|]. now apply C19_required_missing_doc.
+Qed.
+Print Assumptions C19_class_with_undocumented_method_rejected.
+
+Theorem C19_class_accepted_iff_own_methods_accepted : forall own parent,
+  decorate_class docstring_prog (Klass own parent) = Ok tt <->
+  forall m, In m own -> decorate docstring_prog (fc true (m_ann m) (m_doc m)) = Ok tt.
+Proof. intros. apply decorate_class_Ok. Qed.
+Print Assumptions C19_class_accepted_iff_own_methods_accepted.
+
+(* accepted <-> the override's own docstring is consistent with the override's own signature (same guards as
+   C19_accepts_iff_consistent_partial; the base class does not occur in the right-hand side) *)
+Theorem C19_override_accepted_iff_own_docstring_consistent_partial : forall scope own parent n m req,
+  find_meth n own = Some m ->
+  sig_ok (m_ann m) = true -> scope_ok scope (m_ann m) = true -> doc_no_typing_dot (m_doc m) = true -> no_hiding scope = true ->
+  applies req (m_doc m) = true ->
+  (decorate_attr docstring_prog req (Klass own parent) n = Ok tt <-> consistent scope (m_ann m) (m_doc m)).
+Proof.
+  intros scope own parent n m req H Hs Hsc Hd Hh Ha.
+  rewrite (C19_attribute_checked_with_own_docstring _ _ _ _ _ H), C19_trigger.
+  cbn [fc mkfc f_parser f_require f_doc andb]. rewrite Ha.
+  now apply C19_accepts_iff_consistent_partial.
+Qed.
+Print Assumptions C19_override_accepted_iff_own_docstring_consistent_partial.
+
+(* class B: def run(self, a: int) -> None documented `a (int)`;  class K(B): def run(self, a: int) -> None, no docstring.
+   The inherited documentation of K.run is consistent with the signature of K.run - and K.run is rejected all the same
+   (class decorator and function decorator); plain @pedantic does not apply; an inherited (not overridden) attribute is the
+   function of B and is accepted. *)
+Definition ex_run_doc : docT := mkdoc RawText [("a", Some {| dt_text := "int"; dt_expr := EName "int" |})] None.
+Definition ex_run_ann : annotations := [("a", TCls "int"); ("return", TNone)].
+Definition ex_B : klass := Klass [ {| m_name := "run"; m_ann := ex_run_ann; m_doc := ex_run_doc |} ] None.
+Definition ex_K : klass := Klass [ {| m_name := "run"; m_ann := ex_run_ann; m_doc := mkdoc RawNone [] None |} ] (Some ex_B).
+
+Example ex_inherited_docstring_is_not_the_docstring :
+  inherited_doc ex_K "run" = Some ex_run_doc /\
+  consistentb ["int"] ex_run_ann ex_run_doc = true /\
+  decorate_class docstring_prog ex_B = Ok tt /\
+  decorate_class docstring_prog ex_K = Raise PDocstringC /\
+  decorate_attr docstring_prog true ex_K "run" = Raise PDocstringC /\
+  decorate_attr docstring_prog false ex_K "run" = Ok tt /\
+  decorate_attr docstring_prog true (Klass [] (Some ex_B)) "run" = Ok tt.
+Proof. vm_compute. repeat split; reflexivity. Qed.
 
 (* ---- the specification ------------------------------------------------------------------------------------------------ *)
 (* the oracle evaluated by the harness is the specification *)
